@@ -133,7 +133,9 @@ impl Path {
 
         let mut components = Vec::new();
 
-        for i in 0..self.components.len() - upward_moves {
+        // More upward moves than this path has components (a malformed story
+        // document) stop at the root.
+        for i in 0..self.components.len().saturating_sub(upward_moves) {
             components.push(self.components.get(i).unwrap().clone());
         }
 
